@@ -1,4 +1,5 @@
-"""Configuration of ./check for C08 (see tools/props.py)."""
+"""Configuration of ./check C08 (shared model coq/Ts)."""
+
 ENTRY = {'coq_dir': 'C08',
  'coq_deps': ['Ts'],
  'model_files': ['Glue'],
@@ -6,35 +7,34 @@ ENTRY = {'coq_dir': 'C08',
  'cases': {'quick': 1500, 'thorough': 10000},
  'consts': [],
  'nontrivial_min_trace': 40,
- 'rule': 'online-generated histories against a real TransportService (cfg(verif) wrapper) with real ConnectionHandles whose command '
-         'receivers the harness owns: 1-3 peers, <= 2 overlapping connections per peer (10 % of the cases allow a third, 8 % inject '
-         'answers for unknown ids / closes of unknown connections: outside the environment assumption, diffed but not judged), '
-         "open_substream calls, opened/failure answers on either connection, inbound substreams, other protocols' senders, substream "
-         'drops, draws from the shared id counter; 8-60 ops (10-120 thorough); plus cases/25 real-time cases (T = 100/300/500 ms on a 200 '
-         'ms grid) with keep-alive downgrades. After every op: emitted TransportEvents, open_substream result, commands seen on each '
-         "connection's channel, Active->Inactive flips, and a dump (per peer primary/secondary id and active flag, next substream id, "
-         'tracked keys, number of armed sleeps, per channel whether a strong sender exists) are compared with the extracted model; '
-         'non-trivial = trace of >= 40 numbers; distinct = distinct (case, trace) pairs',
- 'trusted_base': ['environment assumption of the theorems: connection ids are fresh and at most two connections per peer are open at a '
-                  "time (C06's guarantee), closed/substream notifications refer to an open connection (per-connection FIFO of the "
-                  'connection task), answers refer to an open request',
-                  'atomic-handler abstraction: one input per poll_next; several queued events drained in one poll before the timers are '
-                  'looked at are modelled as consecutive polls at the same instant',
-                  'the harness plays the connection task and the protocol (holds permits of opens in flight, answers them, keeps/drops '
-                  'substreams); SubstreamOpened carries a real tcp::Substream over a dead yamux stream'],
- 'level_text': 'Proof: for every feasible history (any peers, any interleaving of <= 2 overlapping connections per peer, opens, answers, '
-               'polls) the per-peer event stream of the model is (Established (SubstreamOpened|OpenFailure)* Closed)* — alternation and '
-               'substream scope —, the (primary, secondary) view equals the open connections in establishment order at every step, '
-               'returned substream ids are strictly increasing for every history, and an OpenSubstream command is produced only by an '
-               'accepted open, carries its id and targets the oldest open connection; a counterexample shows the two-per-peer assumption '
-               'is needed. The model is tied to transport_service.rs / connection.rs by a per-operation differential run with state dumps; '
-               'the trace oracle additionally checks answered-at-most-once-with-the-same-id.',
- 'level_note': 'Trusted: Coq kernel, extraction, harness and hooks, the environment assumption (discharged by C06 for the connection '
-               "count), the atomic-handler abstraction. 'Each request answered at most once with the same id' and 'exactly once unless the "
-               "connection terminates' are obligations of the connection task: the service forwards every answer unchanged (checked by the "
-               'oracle on every trace), they are not theorems here. ChannelClogged (full command channel) and usize wrap of the id counter '
-               'are not modelled.',
+ 'rule': 'online-generated histories against a real TransportService (cfg(verif) wrapper) with real ConnectionHandles whose command receivers the '
+         'harness owns: 1-3 peers, <= 2 overlapping connections per peer (10 % of the cases allow a third, 8 % inject answers for unknown ids / '
+         'closes of unknown connections: outside the environment assumption, diffed but not judged), open_substream calls, opened/failure answers on '
+         "either connection, inbound substreams, other protocols' senders, substream drops, draws from the shared id counter; 8-60 ops (10-120 "
+         'thorough); plus cases/25 real-time cases (T = 100/300/500 ms on a 200 ms grid) with keep-alive downgrades. After every op: emitted '
+         "TransportEvents, open_substream result, commands seen on each connection's channel, Active->Inactive flips, and a dump (per peer "
+         'primary/secondary id and active flag, next substream id, tracked keys, number of armed sleeps, per channel whether a strong sender exists) '
+         'are compared with the extracted model; non-trivial = trace of >= 40 numbers; distinct = distinct (case, trace) pairs',
+ 'trusted_base': ["environment assumption of the theorems: connection ids are fresh and at most two connections per peer are open at a time (C06's "
+                  'guarantee), closed/substream notifications refer to an open connection (per-connection FIFO of the connection task), answers '
+                  'refer to an open request',
+                  'atomic-handler abstraction: one input per poll_next; several queued events drained in one poll before the timers are looked at '
+                  'are modelled as consecutive polls at the same instant',
+                  'the harness plays the connection task and the protocol (holds permits of opens in flight, answers them, keeps/drops substreams); '
+                  'SubstreamOpened carries a real tcp::Substream over a dead yamux stream'],
+ 'level_text': 'Proof: for every feasible history (any peers, any interleaving of <= 2 overlapping connections per peer, opens, answers, polls) the '
+               'per-peer event stream of the model is (Established (SubstreamOpened|OpenFailure)* Closed)* — alternation and substream scope —, the '
+               '(primary, secondary) view equals the open connections in establishment order at every step, returned substream ids are strictly '
+               'increasing for every history, an OpenSubstream command is produced only by an accepted open, carries its id and targets the oldest '
+               'open connection; an accepted open is in flight until a step hands the protocol an answer with its id or reports its connection '
+               'closed, no id is answered twice, and under the stated environment hypothesis (the open is no longer in flight at the end, i.e. the '
+               'connection task answered its command) it is answered exactly once or its connection was closed; a counterexample shows the '
+               'two-per-peer assumption is needed. The model is tied to transport_service.rs / connection.rs by a per-operation differential run '
+               'with state dumps.',
+ 'level_note': 'Trusted: Coq kernel, extraction, harness and hooks, the environment assumption (discharged by C06 for the connection count), the '
+               'atomic-handler abstraction. That the connection task answers every OpenSubstream command (tcp/connection.rs) is an explicit '
+               "hypothesis of C08_open_answered, not proved here (C07's side). ChannelClogged (full command channel) and usize wrap of the id "
+               'counter are not modelled.',
  'assumptions': ['at most two open connections per peer, fresh connection ids (C06)',
-                 'per-connection FIFO: no substream/closed notification for a connection before its established or after its closed '
-                 'notification',
+                 'per-connection FIFO: no substream/closed notification for a connection before its established or after its closed notification',
                  'HashMap / FuturesUnordered iteration order is not observable (dumps and downgrade lists are sorted)']}
